@@ -46,64 +46,24 @@ def cases(seed, tier):
 
 
 def run_constructed(case):
-    """A checkpoint whose pool puts the ESS crossing at a chosen beta* is imported through SimFS/load_state and the
-    real reweight stage is run once on it: boundary situations (last step inside (1-1e-4,1), ESS exactly at the target at
-    beta_prev, crossing right after beta_prev) are reached on purpose instead of once in hundreds of runs."""
-    import dill
-    import numpy as np
-
-    from .. import refmis, targets as T
+    """A constructed checkpoint (tsim/constructed.py) is imported through SimFS/load_state and the real reweight stage is run once on it."""
+    from .. import constructed, targets as T
     from ..world import World
 
-    r = random.Random(case["seed"])
-    nr = np.random.RandomState(case["seed"] % (2**31))
-    d, N, ratio, Tn = case["d"], case["N"], case["ess_ratio"], case["T"]
-    target = ratio * N
-    # history: T batches at increasing beta; logZ_t from the MIS estimate over the earlier batches (as a run would record)
-    betas = sorted([0.0] + [r.uniform(0.0, 0.4) for _ in range(Tn - 1)])
-    logls = [nr.standard_normal(N) * case["spread"] - case["spread"] for _ in range(Tn)]
-    def build(f):
-        b = []
-        for t in range(Tn):
-            bt = betas[t] / f
-            lz = 0.0 if t == 0 else float(refmis.mis(b, bt)[1])
-            b.append((bt, lz, logls[t] * f))
-        return b
-    def ess_at(b, beta):
-        return refmis.ess_from_logw(refmis.mis(b, beta)[0])
-    base = build(1.0)
-    bp = base[-1][0]
-    if not (ess_at(base, bp) > target * 1.02 and ess_at(base, 1.0) < target * 0.98):
+    built = constructed.build(case)
+    if built is None:
         return dict(violations=[], stats=dict(constructed_unsuitable=1), probes={}, digest="unsuitable", distinct_key=None, nontrivial=False)
-    lo, hi = bp, 1.0
-    for _ in range(80):
-        mid = 0.5 * (lo + hi)
-        if ess_at(base, mid) >= target:
-            lo = mid
-        else:
-            hi = mid
-    bc = lo
-    f = bc / case["beta_star"]
-    b = build(f)
-    hist = {k: [] for k in ("u", "x", "logl", "blobs", "iter", "logz", "calls", "steps", "efficiency", "ess", "acceptance", "beta")}
-    for t, (bt, lz, ll) in enumerate(b):
-        u = nr.random_sample((N, d))
-        hist["u"].append(u); hist["x"].append(u.copy()); hist["logl"].append(ll); hist["logz"].append(lz); hist["beta"].append(bt)
-        hist["iter"].append(t + 1); hist["calls"].append(N * (t + 1)); hist["steps"].append(1); hist["efficiency"].append(1.0); hist["acceptance"].append(1.0); hist["ess"].append(float(N))
-    cur = dict(u=hist["u"][-1], x=hist["x"][-1], logl=hist["logl"][-1], assignments=np.zeros(N, dtype=int), blobs=None, acceptance=1.0, steps=1, efficiency=1.0, ess=float(N),
-               beta=hist["beta"][-1], logz=hist["logz"][-1], calls=hist["calls"][-1], iter=Tn)
-    blob = {"_current": cur, "_history": hist, "n_dim": d, "random_state": None, "n_total": 4 * N, "logz_err": None}
+    blob, hist, target = built
+    d, N, ratio, Tn = case["d"], case["N"], case["ess_ratio"], case["T"]
     mon = ScheduleMon(PROP)
     cfg = dict(n_particles=N, ess_ratio=ratio, clustering=False)
     if case.get("vv"):
         cfg["volume_variation"] = case["vv"]
     w = World(dict(seed=case["seed"], target=dict(T.spec_gauss(d=d), kind="gauss"), cfg=cfg), monitors=[mon])
     with w.incarnation() as inc:
-        w.fs.sys_mkdir("/simfs/out")
-        with open("/simfs/out/constructed.state", "wb") as fh:
-            dill.dump(blob, fh)
+        path = constructed.write(w, blob)
         s = inc.new_sampler()
-        s.load_state("/simfs/out/constructed.state")
+        s.load_state(path)
         s._core.reweighter.run()
         beta_new = float(s.state._current["beta"])
     if w.escapes:
